@@ -47,7 +47,7 @@ func collectReachable(root interface{}, visited func(reachNode) bool) []reachNod
 	seen := map[uintptr]bool{}
 	var walk func(v reflect.Value, parent string, depth int)
 	walk = func(v reflect.Value, parent string, depth int) {
-		if depth > 3000 {
+		if depth > 200000 {
 			return
 		}
 		switch v.Kind() {
@@ -381,6 +381,33 @@ func c14Child(a *ChildArgs) {
 		if a.Shard == 0 {
 			for _, f := range CorpusFiles() {
 				c14Tree(a, f.SQL)
+			}
+		}
+		if a.Shard == 0 {
+			// trees far deeper than any recursion limit of the parser: flat operator chains become left-deep trees, long
+			// lists become wide ones; traversal must reach the nodes behind them all the same
+			for _, n := range []int{50, 150, 600} {
+				for _, op := range []string{"OR", "AND", "+", "||"} {
+					term := "id = %d"
+					if op == "+" || op == "||" {
+						term = "c%d"
+					}
+					var parts []string
+					for k := 0; k < n; k++ {
+						parts = append(parts, fmt.Sprintf(term, k))
+					}
+					chain := strings.Join(parts, " "+op+" ")
+					if op == "+" || op == "||" {
+						c14Tree(a, "SELECT "+chain+", tail_col FROM t WHERE x IN (SELECT uid FROM inner_tbl WHERE f(y) = 0) ORDER BY last_col")
+					} else {
+						c14Tree(a, "SELECT a FROM t WHERE x IN (SELECT uid FROM inner_tbl WHERE f(y) = 0) "+op+" "+chain+" ORDER BY last_col")
+					}
+				}
+				var items []string
+				for k := 0; k < n; k++ {
+					items = append(items, fmt.Sprintf("g(c%d)", k))
+				}
+				c14Tree(a, "SELECT "+strings.Join(items, ", ")+" FROM t WHERE a IN ("+strings.Join(items, ", ")+") ORDER BY last_col")
 			}
 		}
 		if a.Shard == 1 {
